@@ -402,6 +402,7 @@ func specRun(c Case, out []string) (fails []oracleFailure, taints map[string]int
 	snapOf := map[string]string{} // snapshot id → dump core of the source at snapshot time ("" unknown)
 	snapTaint := map[string]bool{}
 	pendingRestore := map[string]string{}
+	snapWait := map[string]string{} // collection → snapshot whose expected state is the next dump of the collection
 	emittedSince := map[string]int{}
 	replicaSynced := false // r has replayed everything p emitted so far
 	for i, line := range c.Lines {
@@ -508,6 +509,15 @@ func specRun(c Case, out []string) (fails []oracleFailure, taints map[string]int
 					}
 				}
 			}
+			if sid, ok := snapWait[cid]; ok {
+				delete(snapWait, cid)
+				if len(sc.txns) == 0 {
+					snapOf[sid] = dumpCore(o)
+					snapTaint[sid] = snapTaint[sid] || tainted[cid]
+				} else {
+					snapOf[sid] = ""
+				}
+			}
 			if cid == "p" {
 				sc.lastDump = dumpCore(o)
 				emittedSince["p"] = 0
@@ -521,6 +531,23 @@ func specRun(c Case, out []string) (fails []oracleFailure, taints map[string]int
 				specCheckKeys(sc, d, i, fail, tainted[cid])
 			}
 		case "snapshot":
+			if len(rest) == 4 && rest[2] == "with" {
+				// the open transaction committed while the snapshot was written: judge the commit like any other; the
+				// restored collection must equal the primary AFTER it (taken from the dump that follows)
+				t := sc.txns[rest[3]]
+				delete(sc.txns, rest[3])
+				if t != nil && strings.HasPrefix(o, "ok committed") {
+					specCommit(cid, sc, t, strings.TrimPrefix(o, "ok "), i, fail, taint, tainted)
+					emittedSince[cid]++
+					replicaSynced = false
+					snapOf[rest[1]] = "?"
+					snapWait[cid] = rest[1]
+					snapTaint[rest[1]] = tainted[cid]
+				} else {
+					snapOf[rest[1]] = ""
+				}
+				continue
+			}
 			if o == "ok" {
 				if len(sc.txns) == 0 {
 					snapOf[rest[1]] = "?" // filled by the dump that the generator always emits before
